@@ -26,7 +26,9 @@ ASSUMPTIONS = [
     'attribute order and fill_value encoding are not demanded, attribute '
     'names and values are',
 ]
-HOOKS = ['sliceDimensions.return', 'oracle.compare']
+HOOKS = ['sliceDimensions.return', 'slice_dim.return', 'oracle.compare']
+FACETS_REQUIRED = {t: ['form:method', 'form:slice_dim']
+                   for t in ('quick', 'thorough')}
 MIN_DISTINCT = {'quick': 500, 'thorough': 5000}
 N = {'quick': 3000, 'thorough': 60000}
 MENU_FILES = 4  # thorough: exhaustive menu on this many (2,3,4) files
@@ -105,7 +107,18 @@ def gen(rng, idx, tier, seed):
         sel.append([name, s])
     order = rng.permutation(len(sel))
     sel = [sel[i] for i in order]
-    return {'file': fs, 'sel': sel}
+    spec = {'file': fs, 'sel': sel}
+    if idx % 4 == 3 and not any('l' in s_ for _, s_ in sel):
+        # the command-line string form: one slice_dim call per dimension
+        spec['form'] = 'slice_dim'
+    return spec
+
+
+def slice_string(d, s):
+    """selector -> the 'dim,start,stop,stride' / 'dim,index' string"""
+    if 'i' in s:
+        return '%s,%d' % (d, s['i'])
+    return '%s,%s,%s,%s' % ((d,) + tuple(s['s']))
 
 
 def run(spec, res):
@@ -120,14 +133,24 @@ def run(spec, res):
     facet = ['kinds:' + ''.join(kinds)]
     if len(file_lists) > 1:
         facet.append('zipped')
+    form = spec.get('form', 'method')
+    facet.append('form:' + form)
     try:
-        out = f.sliceDimensions(**kw)
+        if form == 'slice_dim':
+            from PseudoNetCDF.core._functions import slice_dim
+            out = f
+            for d, s_ in spec['sel']:
+                out = slice_dim(out, slice_string(d, s_))
+                res.hook('slice_dim.return')
+        else:
+            out = f.sliceDimensions(**kw)
     except Exception as e:
         res.hook('sliceDimensions.return')
         if in_domain:
             res.ev(digest(spec), True, facet + ['raised'])
-            res.viol('in-domain-raise', 'sliceDimensions(%s) raised %r'
-                     % (spec['sel'], e), exc=type(e).__name__)
+            res.viol('in-domain-raise', '%s(%s) raised %r'
+                     % ('sliceDimensions' if form == 'method' else form,
+                        spec['sel'], e), exc=type(e).__name__, form=form)
         else:
             res.ev(digest(spec), False, 'out-of-domain-raise')
         return
@@ -175,5 +198,6 @@ def run(spec, res):
     res.ev(digest(spec), nontrivial, facet)
     if problems:
         vdimsets = {n: v.dims for n, v in before.vars.items()}
-        res.viol('wrong-selection', '; '.join(problems[:6]),
-                 sel=spec['sel'], vdims=vdimsets)
+        res.viol('wrong-selection' if form == 'method' else
+                 'wrong-selection:' + form, '; '.join(problems[:6]),
+                 sel=spec['sel'], vdims=vdimsets, form=form)
